@@ -44,6 +44,9 @@ type c15Case struct {
 	BaseMs   float64  `json:"base_delay_ms"`
 	Factor   float64  `json:"backoff_factor"`
 	MaxMs    float64  `json:"max_delay_ms"`
+	// Reuse: the recovery object has already performed one load under the same script (a long-lived
+	// caller loads again): the second load must behave like the first of a fresh object.
+	Reuse bool `json:"second_load_on_the_same_object,omitempty"`
 }
 
 var c15MainCmds = []Cmd{{Command: "git status", Description: "Show status", Keywords: []string{"git"}}, {Command: "ls -la", Description: "List files", Keywords: []string{"list", "files"}}}
@@ -136,7 +139,18 @@ func c15Eval(cs c15Case) (*lib.Violation, string) {
 	var pv any
 	func() {
 		defer func() { pv = recover() }()
-		db, err = recovery.NewDatabaseRecovery(cfg).LoadDatabaseWithFallback(mainP, persP)
+		dr := recovery.NewDatabaseRecovery(cfg)
+		if cs.Reuse {
+			dr.LoadDatabaseWithFallback(mainP, persP)
+			// same script again from its first answer, fresh attempt counters and sleep log
+			h2 := vos.NewHooks()
+			h2.Read = h.Read
+			h = h2
+			vos.Install(h)
+			vtime.Disable()
+			vtime.Enable()
+		}
+		db, err = dr.LoadDatabaseWithFallback(mainP, persP)
 	}()
 	sleeps := vtime.Sleeps()
 	attempts := h.Attempts["ReadFile "+mainP] + h.Attempts["Open "+mainP] // whichever way the loader reads the file
@@ -339,6 +353,20 @@ func c15Run(c *lib.Ctx) {
 									c.Violate(*v)
 									continue
 								}
+								if idx%3 == 0 {
+									cs2 := cs
+									cs2.Reuse = true
+									v2, obs2 := c15Eval(cs2)
+									c.Rep.Evaluations++
+									c.Count("second_load_on_same_object", 1)
+									if v2 == nil && obs2 != obs {
+										v2 = &lib.Violation{Key: "second-load-differs", What: "a second load through the same recovery object, under the same file answers, does not behave like the first: " + obs2 + " vs " + obs, Case: cs2, Observed: obs2, Expected: obs}
+									}
+									if v2 != nil {
+										c.Violate(*v2)
+										continue
+									}
+								}
 								switch {
 								case strings.Contains(obs, "attempts=1 "):
 									c.Count("one_attempt", 1)
@@ -370,7 +398,7 @@ func c15Run(c *lib.Ctx) {
 func init() {
 	lib.Register(&lib.Check{
 		ID: "C15", Level: "fault_enumeration",
-		Rule:      "every fault script (thorough: EVERY main-file script of <=3 answers over the 9 answers x every notebook script of <=2 answers over 7, with BaseDelay {0,100ms} x BackoffFactor {1,2,1e6}; quick as follows): main file answers per attempt in {9 stationary answers: ok, ok-empty-list, zero-bytes, ENOENT, EACCES, EISDIR, EIO, malformed, wrong-shape} + {one or two transient faults (EIO, malformed, ENOENT, EACCES, EISDIR) then ok} + {EIO then ENOENT, EIO EIO then EACCES} x personal file {absent, ok, ok-empty, malformed, EACCES, EIO, wrong-shape, EIO then ok, malformed then absent, EIO then EACCES} x backup {absent, ok, malformed, empty list, zero bytes} x retry configuration MaxAttempts {-1,0,1,2,3,5} x BaseDelay {0,1ms,100ms} x BackoffFactor {1,2,10,1e6} x MaxDelay {0,150ms,5s}, each through the real LoadDatabaseWithFallback with answers injected at the file-read seam (vos), attempts counted there and sleeps virtual (vtime). Oracle: non-nil searchable database and nil error always; the real database (main then notebook entries) when the first answers load; never a half-loaded mix; missing / permission-denied tried exactly once; attempts <= max(1, MaxAttempts); waits <= attempts-1, non-decreasing, <= MaxDelay. non-trivial = scripts with more than one attempt",
+		Rule:      "every fault script (thorough: EVERY main-file script of <=3 answers over the 9 answers x every notebook script of <=2 answers over 7, with BaseDelay {0,100ms} x BackoffFactor {1,2,1e6}; quick as follows): main file answers per attempt in {9 stationary answers: ok, ok-empty-list, zero-bytes, ENOENT, EACCES, EISDIR, EIO, malformed, wrong-shape} + {one or two transient faults (EIO, malformed, ENOENT, EACCES, EISDIR) then ok} + {EIO then ENOENT, EIO EIO then EACCES} x personal file {absent, ok, ok-empty, malformed, EACCES, EIO, wrong-shape, EIO then ok, malformed then absent, EIO then EACCES} x backup {absent, ok, malformed, empty list, zero bytes} x retry configuration MaxAttempts {-1,0,1,2,3,5} x BaseDelay {0,1ms,100ms} x BackoffFactor {1,2,10,1e6} x MaxDelay {0,150ms,5s}, each through the real LoadDatabaseWithFallback with answers injected at the file-read seam (vos), attempts counted there and sleeps virtual (vtime). Oracle: non-nil searchable database and nil error always; the real database (main then notebook entries) when the first answers load; never a half-loaded mix; missing / permission-denied tried exactly once; attempts <= max(1, MaxAttempts); waits <= attempts-1, non-decreasing, <= MaxDelay; for every third script also a second load through the SAME recovery object (same answers again): same database, attempts and waits as the first. non-trivial = scripts with more than one attempt",
 		Assume:    []string{"faults are injected at os.ReadFile / os.Stat of the three paths (vos seam); other file-system calls are not on this path", "BackoffFactor < 1 is outside the checked domain", "the backup rung is unreachable in the current ladder (the built-in list never fails and comes first); it is enumerated but never answers", "whether a transient fault is retried at all is not demanded (only 'at most')"},
 		QuickSecs: 100, ThorSecs: 1500,
 		Run: c15Run,
